@@ -77,8 +77,12 @@ func (b *Buffer) Get(key []byte) ([]byte, bool) {
 		return nil, true // Key exists but is marked for deletion
 	}
 
-	// Return the value directly - skiplist handles defensive copying
-	return op.Value, true
+	// Return a copy: the buffered value is what Commit will write, and the
+	// caller is free to reuse the slice it gets back. An empty value stays
+	// non-nil (nil means deleted)
+	valueCopy := make([]byte, len(op.Value))
+	copy(valueCopy, op.Value)
+	return valueCopy, true
 }
 
 // Operations returns a sorted list of all operations in the transaction
